@@ -12,7 +12,7 @@ THEOREMS = ["Mesa.Cells." + t for t in (
     "C07_connect_spec", "C07_connect_2d_is_nd", "C07_connect_symm", "C07_grid_connections", "C07_grid_cells",
     "C07_grid_symmetric", "C07_network_connections", "C07_voronoi_connections_partial", "C07_nbhd_spec",
     "C07_reach_is_path", "C07_cache_transparent", "C07_cache_transparent_from", "C07_connections_are_dicts",
-    "C07_connect_disconnect_spec", "C07_cache_transparent_under_edits")]
+    "C07_connect_disconnect_spec", "C07_cache_transparent_under_edits", "C07_memo_keys_generated")]
 COUNTS = {"quick": 1200, "thorough": 30000}
 TRUSTED = [
     "Python dict semantics (insertion order, update keeps the position of existing keys, pop) modelled as duplicate-free lists",
@@ -28,13 +28,14 @@ TRUSTED = [
 ASSUMPTIONS = [
     "Cell.connect / Cell.disconnect are called on cells of the same space, with int / int-tuple keys or the default key",
     "hex tori have an even size along the offset axis (coordinate[1]); other hex tori are followed by the model but not covered by the symmetry/touching theorems",
-    "Network: simple graphs on nodes 0..n-1; Voronoi: integer points in general position (no 3 collinear, no 4 cocircular)",
+    "Network: graphs on nodes 0..n-1 (any edge list: self loops, parallel and antiparallel edges, Multi(Di)Graph); Voronoi: integer points in general position (no 3 collinear, no 4 cocircular)",
 ]
 RULE = ("exhaustive small scope: every cell x radius 1..3 (thorough 1..5) x include_center x connections x neighborhood property x mask "
         "on every Moore/von Neumann grid with <= 3 axes of size <= 4 (quick: 3 axes <= 3; thorough adds 4 axes <= 3) and hex grids "
         "<= 6x6, torus on/off, in two query orders (ascending positional / descending keyword calls, so memo tables are hit in both "
         "directions); plus random scenarios: grids with 1-4 axes biased to sizes 1 and 2, hex, Network on random graphs <= 12 nodes incl. "
-        "isolated nodes and some DiGraphs, VoronoiGrid on 3-9 integer points; 8-40 queries + 50% repeated, shuffled (4%: the neighbourhood used as a CellCollection: cells, len, "
+        "isolated nodes and some DiGraphs (45% not simple: self loops, repeated / antiparallel edges, MultiGraph / MultiDiGraph), 2% headers the "
+        "constructor refuses (a size <= 0, a HexGrid that is not 2-D), VoronoiGrid on 3-9 integer points; 8-40 queries + 50% repeated, shuffled (4%: the neighbourhood used as a CellCollection: cells, len, "
         "in, select, select_random_cell by position); radius 0 and "
         "non-cells are rejected; 35% of the random scenarios and a built-in sweep (every ordered cell pair of five small spaces: "
         "all queries, connect, all queries, disconnect, all queries) edit connections between the queries with Cell.connect / "
